@@ -3,9 +3,10 @@ UNIT executor: the real nni_lmq_* / nni_msgq_* / nng_id_* functions against the 
 specification (bounded FIFO, FIFO channel, finite map with id cursor) and the Lean models."""
 import re, time, os, json
 from .. import core, build, lean, unit
+from . import c18_notify
 
 PROP = "C18"
-MODULES = ["NngModel.Props.C18"]
+MODULES = ["NngModel.Props.C18"] + c18_notify.MODULES
 COMPONENTS = [  # (name, harness, spec component, model component)
     ("lmq", "u_lmq", "lmq-spec", "lmq-model"),
     ("msgq", "u_msgq", "msgq-spec", "msgq-model"),
@@ -375,7 +376,19 @@ def run(tier, seed, replay=None):
                                      "component": comp, "correspondence": f"{modelc} vs {hname}", "ops": ops,
                                      "impl": s["impl"].lines, "model": s["model"].lines,
                                      "mismatching_cases": len(res.model_mismatch)}
+    # the pollable levels of the msgq (C18N): own harness mode, own Lean components, own judge
+    ncounts, nviol = c18_notify.run_part(tier, seed, st, rp)
+    allcases += ncounts["cases"]; distinct += ncounts["distinct"]
+    samples += ncounts.pop("samples", [])[:2]
+    counts["spec"] += ncounts["judge"] + ncounts["spec"]; counts["model"] += ncounts["model"]; counts["crash"] += ncounts["crash"]
+    for tag, payload, no_input in nviol:
+        if not no_input:
+            v.violation(tag, payload)
+            found_input = True
     if not found_input:
+        for tag, payload, no_input in nviol:
+            if no_input:
+                v.violation(tag, payload, no_input=True)
         for comp in summary:
             if "corr" in summary[comp]:
                 v.violation(f"{comp}-corr", summary[comp]["corr"], no_input=True)
@@ -385,9 +398,9 @@ def run(tier, seed, replay=None):
         summary[comp].pop("corr", None)
     cov = {
         "obligations": len(st.theorems), "discharged": len(st.discharged),
-        "checker_cmd": "lake build NngModel.Props.C18 && lake env lean <#print axioms for each theorem>",
+        "checker_cmd": "lake build NngModel.Props.C18 NngModel.Props.C18Notify && lake env lean <#print axioms for each theorem>",
         "trusted_base": ["Lean 4.33.0 kernel", "axioms: " + ", ".join(sorted({a for x in st.axioms.values() if x for a in x})),
-                         "vlib/extract.py + vlib/extract_c18.py (constants)",
+                         "vlib/extract.py + vlib/extract_c18.py (constants) + vlib/extract_c18n.py (run_notify call sites, socket.c mapping)",
                          "harness/u_lmq.c, u_msgq.c, u_idmap.c, qcommon.h + vlib/unit.py (correspondence)",
                          "gcc ASan/UBSan/LSan as the out-of-bounds / leak detector on the implementation"],
         "theorems": st.discharged, "axioms": st.axioms, "broken": st.broken,
@@ -396,14 +409,15 @@ def run(tier, seed, replay=None):
                 "and fill level explicitly and then mix put/get/resize/flush/close/cancel with resize targets around the fill level and "
                 "powers of two; idmap cases use tiny wrapping ranges, ranges around 2^32 and 2^64, random start, and keys colliding "
                 "modulo 8/16/32/64; plus directed cases and corpus/C18; distinct = distinct op lists with more than 5 ops",
-        "components": summary, "op_histogram": op_hist, "rv_histogram": rv_hist, "samples": samples,
+        "components": summary, "msgq_levels_part": ncounts, "msgq_levels_rule": c18_notify.RULE, "op_histogram": op_hist, "rv_histogram": rv_hist, "samples": samples,
         "spec_mismatches": counts["spec"], "model_mismatches": counts["model"], "crashes": counts["crash"],
         "extract_changed": st.extract_changed,
     }
     core.write_evidence(PROP, tier, seed, "proof", cov,
                         ["the Lean models Model/{Lmq,Msgq,IdHash}.lean mirror lmq.c, msgqueue.c, idhash.c; tie = differential "
                          "execution on the cases above (model-only fields: ring indices, allocation, pollable flags, table capacity, "
-                         "load, cursor)",
+                         "load, cursor); msgq pollable levels: harness/u_msgq.c in norefresh mode (pollables and descriptors fetched once) "
+                         "against msgqn-spec / msgqn-model and the non-blocking probes (vlib/props/c18_notify.py)",
                          "nni_aio_start succeeds (aios not stopped, infinite timeout); completions are collected after nni_aio_wait",
                          "allocation failure is injected through nni_alloc_set / nng_init_params; nni_random is supplied by the idmap harness"],
                         time.time() - t0, len(v.violations))
